@@ -37,6 +37,21 @@ def fit(b, n):
     return (bytes(b) + bytes(n))[:n]
 
 
+def drawn_fresh(calls, wanted):
+    """each wanted (size, value) is the value of its own draw of that size among `calls` (the draws of this operation only), no draw serving two roles;
+    the ORDER of the draws is not prescribed (the property does not fix it), nor is drawing more than needed"""
+    def rec(i, used):
+        if i == len(wanted):
+            return True
+        size, val = wanted[i]
+        for j in range(len(calls)):
+            if j not in used and calls[j][0] == size and calls[j][1] == val:
+                if rec(i + 1, used | {j}):
+                    return True
+        return False
+    return rec(0, frozenset())
+
+
 @ob('O13.1', 'passphrase encryption: the session key, the S2K salt and the data prefix are three distinct draws from the entropy source with the sizes of '
              'key, 8 and block; a second encryption of the same message draws three new ones; none of them depends on the message',
     'cipher over all 9 supported ones (sizes checked against RFC 4880 / 5581 tables); six fully symbolic feed elements (32 octets each, truncated to the size asked for); body of 0..1 symbolic octets',
@@ -52,25 +67,24 @@ def msg_encrypt_entropy(ai: int, body: bytes, e0: bytes, e1: bytes, e2: bytes, e
     ks, bs = RFC_KEY_OCTETS[int(alg)], RFC_BLOCK_OCTETS[int(alg)]          # sizes from the RFCs, not from PGPy's own tables
     msg = PGPMessage.new(bytes(body), compression=K.CompressionAlgorithm.Uncompressed, file=False, format='b')
     Feed.reset([e0, e1, e2, e3, e4, e5])
-    for rnd, (ek, es, ep) in enumerate(((e0, e1, e2), (e3, e4, e5))):
+    for rnd in range(2):
         Cipher.reset()
         S2K.log = []
         ncalls = len(Feed.calls)
         enc = msg.encrypt('pw', cipher=alg)
         calls = Feed.calls[ncalls:]
-        if [n for n, _ in calls] != [ks, 8, bs]:
-            return False
         encs = [e for e in Cipher.log if e[0] == 'enc']
         if len(encs) != 2:
             return False
         sk_block, data_block = encs[0], encs[1]
-        key, salt, prefix = fit(ek, ks), fit(es, 8), fit(ep, bs)
-        if sk_block[1] != bytes([int(alg)]) + key or S2K.log[0][1] != salt:
+        # what was used: session key (inside the session-key block and as the data key), salt (given to S2K and written to the packet), prefix
+        key, salt, prefix = data_block[2], S2K.log[0][1], data_block[1][:bs]
+        if len(key) != ks or len(salt) != 8 or sk_block[1] != bytes([int(alg)]) + key or data_block[1][bs:bs + 2] != prefix[bs - 2:]:
             return False
-        if data_block[2] != key or data_block[1][:bs] != prefix or data_block[1][bs:bs + 2] != prefix[bs - 2:]:
+        if bytes([p for p in enc._sessionkeys][0].s2k.salt) != salt:
             return False
-        pk = [p for p in enc._sessionkeys][0]
-        if bytes(pk.s2k.salt) != salt:
+        # ... and each of them is its own draw made during THIS call
+        if not drawn_fresh(calls, [(ks, key), (8, salt), (bs, prefix)]):
             return False
     return True
 
@@ -88,20 +102,18 @@ def key_encrypt_entropy(ai: int, body: bytes, e0: bytes, e1: bytes, e2: bytes, e
     ks, bs = RFC_KEY_OCTETS[int(alg)], RFC_BLOCK_OCTETS[int(alg)]
     msg = PGPMessage.new(bytes(body), compression=K.CompressionAlgorithm.Uncompressed, file=False, format='b')
     Feed.reset([e0, e1, e2, e3])
-    for ek, ep in ((e0, e1), (e2, e3)):
+    for rnd in range(2):
         Cipher.reset()
         PK.blocks = []
         ncalls = len(Feed.calls)
         ENCPUB.encrypt(msg, cipher=alg)
         calls = Feed.calls[ncalls:]
-        if [n for n, _ in calls] != [ks, bs]:
-            return False
-        key, prefix = fit(ek, ks), fit(ep, bs)
-        s = sum(key) % 65536
-        if PK.blocks != [bytes([int(alg)]) + key + bytes([s // 256, s % 256])]:
-            return False
         data_block = [e for e in Cipher.log if e[0] == 'enc'][-1]
-        if data_block[2] != key or data_block[1][:bs] != prefix:
+        key, prefix = data_block[2], data_block[1][:bs]
+        s = sum(key) % 65536
+        if len(key) != ks or PK.blocks != [bytes([int(alg)]) + key + bytes([s // 256, s % 256])]:
+            return False
+        if not drawn_fresh(calls, [(ks, key), (bs, prefix)]):
             return False
     return True
 
@@ -117,21 +129,88 @@ def protect_entropy(e0: bytes, e1: bytes, e2: bytes, e3: bytes, e4: bytes, e5: b
     key, sub = key_of(0, 0x81, 2, 3, 4, 0x91, 7)
     Cipher.reset()
     Feed.reset([e0, e1, e2, e3, e4, e5, e6, e7])
-    key.protect('pw', K.SymmetricKeyAlgorithm.AES128, K.HashAlgorithm.SHA1)
-    if [n for n, _ in Feed.calls] != [16, 8, 16, 8]:
+    for rnd, pw in enumerate(('pw', 'pw2')):
+        ncalls, nenc = len(Feed.calls), len([e for e in Cipher.log if e[0] == 'enc'])
+        if rnd == 0:
+            key.protect(pw, K.SymmetricKeyAlgorithm.AES128, K.HashAlgorithm.SHA1)
+        else:
+            with key.unlock('pw'):
+                key.protect(pw, K.SymmetricKeyAlgorithm.AES128, K.HashAlgorithm.SHA1)
+        a, b = key._key.keymaterial.s2k, sub._key.keymaterial.s2k
+        encs = [e for e in Cipher.log if e[0] == 'enc'][nenc:]
+        # the IV handed to the cipher is the one written to the packet; salted S2K; and the four values are four draws of this call
+        if not (len(encs) == 2 and encs[0][4] == bytes(a.iv) and encs[1][4] == bytes(b.iv) and int(a.specifier) in (1, 3) and int(b.specifier) in (1, 3)):
+            return False
+        if not drawn_fresh(Feed.calls[ncalls:], [(16, bytes(a.iv)), (8, bytes(a.salt)), (16, bytes(b.iv)), (8, bytes(b.salt))]):
+            return False
+    return True
+
+
+@ob('O13.3b', 'a key that arrives protected under a Simple (unsalted) S2K and has its passphrase changed is protected with a salted specifier whose salt and IV are new draws, '
+              'and that salt is the one handed to the key derivation and written to the packet',
+    'foreign DSA secret key packet, usage 254, Simple S2K, AES-128; unlocked (cipher stand-in returns the well-formed secret string), protected again; two symbolic feed elements',
+    cond_timeout={'q': 200, 't': 600}, flags=('symmpi',))
+def reprotect_foreign_simple(e0: bytes, e1: bytes, x: int) -> bool:
+    """
+    pre: len(e0) == 16 and len(e1) == 16
+    pre: 0 <= x < 256
+    post: _
+    """
+    from harness.c06 import materials
+    from harness.c08 import pack, pub_body
+    from harness.encfix import inj_digest
+    alg, pubmat, mk = materials(1)
+    body = pub_body(alg, pubmat) + bytes([254, 7, 0, 2]) + bytes([x]) + bytes(15) + b'\x01\x02\x03\x04\x05\x06' * 4
+    pkt = Packet(bytearray(pack(5, body, 0)))
+    sec = bytes([0, 8, 0x91])
+    Cipher.reset()
+    Cipher.adversarial = [sec + inj_digest(sec)]
+    pkt.unprotect('old')
+    S2K.log = []
+    Feed.reset([e0, e1])
+    pkt.protect('new', K.SymmetricKeyAlgorithm.AES128, K.HashAlgorithm.SHA1)
+    s2k = pkt.keymaterial.s2k
+    if int(s2k.specifier) not in (1, 3) or len(bytes(s2k.salt)) != 8:
         return False
-    a, b = key._key.keymaterial.s2k, sub._key.keymaterial.s2k
-    if bytes(a.iv) != bytes(e0) or bytes(a.salt) != bytes(e1) or bytes(b.iv) != bytes(e2) or bytes(b.salt) != bytes(e3):
+    if not S2K.log or S2K.log[-1][1] != bytes(s2k.salt) or S2K.log[-1][2] != int(s2k.specifier):
         return False
-    encs = [e for e in Cipher.log if e[0] == 'enc']
-    if not (len(encs) == 2 and encs[0][4] == bytes(e0) and encs[1][4] == bytes(e2)):
+    out = bytes(pkt.__bytearray__())
+    p = len(pkt.header) + len(pub_body(alg, pubmat))
+    spec = int(s2k.specifier)
+    ivat = p + 12 + (1 if spec == 3 else 0)
+    if not (out[p] == 254 and out[p + 1] == 7 and out[p + 2] == spec and out[p + 4:p + 12] == bytes(s2k.salt) and out[ivat:ivat + 16] == bytes(s2k.iv)):
         return False
-    with key.unlock('pw'):
-        key.protect('pw2', K.SymmetricKeyAlgorithm.AES128, K.HashAlgorithm.SHA1)
-    if [n for n, _ in Feed.calls] != [16, 8, 16, 8, 16, 8, 16, 8]:
-        return False
-    a, b = key._key.keymaterial.s2k, sub._key.keymaterial.s2k
-    return bytes(a.iv) == bytes(e4) and bytes(a.salt) == bytes(e5) and bytes(b.iv) == bytes(e6) and bytes(b.salt) == bytes(e7)
+    return drawn_fresh(Feed.calls, [(16, bytes(s2k.iv)), (8, bytes(s2k.salt))])
+
+
+@ob('O13.1b', 'a message encrypted to several passphrases (same session key): every passphrase packet has its own salt, each a new draw of its own call',
+    'three passphrases added one after the other with the session key carried over; CAST5 and AES-128; symbolic feed elements', cond_timeout={'q': 280, 't': 900}, flags=('lazyhex',), partitions=[['ai == 0'], ['ai == 1']])
+def multi_passphrase_entropy(ai: int, e0: bytes, e1: bytes, e2: bytes, e3: bytes, e4: bytes) -> bool:
+    """
+    pre: ai in (0, 1)
+    pre: len(e0) == 32 and len(e1) == 32 and len(e2) == 32 and len(e3) == 32 and len(e4) == 32
+    post: _
+    """
+    alg = pick(ai)
+    ks, bs = RFC_KEY_OCTETS[int(alg)], RFC_BLOCK_OCTETS[int(alg)]
+    msg = PGPMessage.new(b'x', compression=K.CompressionAlgorithm.Uncompressed, file=False, format='b')
+    sk = bytes(range(1, ks + 1))
+    Feed.reset([e0, e1, e2, e3, e4])
+    S2K.log = []
+    enc = msg
+    salts = []
+    for pw in ('one', 'two', 'three'):
+        ncalls, nlog = len(Feed.calls), len(S2K.log)
+        enc = enc.encrypt(pw, sessionkey=sk, cipher=alg)
+        used = [e for e in S2K.log[nlog:] if e[0] == pw.encode()]
+        if len(used) != 1:
+            return False
+        salt = used[0][1]
+        if len(salt) != 8 or not drawn_fresh(Feed.calls[ncalls:], [(8, salt)]):
+            return False
+        salts.append(salt)
+    written = [bytes(p.s2k.salt) for p in enc._sessionkeys]
+    return len(written) == 3 and all(w in salts for w in written) and all(x in written for x in salts)
 
 
 @ob('O13.4', 'the session key never appears in the clear: with a cipher whose output ignores its input the exported message is the same octets whatever the session key is',
@@ -159,4 +238,5 @@ def session_key_not_in_clear(body: bytes, k1: bytes, k2: bytes) -> bool:
 E32 = [bytes([16 * i + j for j in range(16)] * 2) for i in range(6)]
 E32 = E32 + [bytes([200 + i] * 32) for i in range(2)]
 SANITY = ['msg_encrypt_entropy(%d, b"x", *E32[:6])' % i for i in range(9)] + ['key_encrypt_entropy(%d, b"", *E32[:4])' % i for i in (0, 1, 3, 7)] + \
-         ['protect_entropy(E32[0][:16], E32[1][:8], E32[2][:16], E32[3][:8], E32[4][:16], E32[5][:8], E32[6][:16], E32[7][:8])', 'session_key_not_in_clear(b"a", E32[0][:16], E32[1][:16])']
+         ['protect_entropy(E32[0][:16], E32[1][:8], E32[2][:16], E32[3][:8], E32[4][:16], E32[5][:8], E32[6][:16], E32[7][:8])', 'session_key_not_in_clear(b"a", E32[0][:16], E32[1][:16])',
+          'reprotect_foreign_simple(E32[0][:16], E32[1][:16], 7)', 'multi_passphrase_entropy(0, *E32[:5])', 'multi_passphrase_entropy(1, *E32[:5])']
